@@ -311,3 +311,66 @@ def native_search(xm, ym, flip, nmax=5):
                 if 0 not in seen_cuts or n not in seen_cuts:
                     return dict(base, violated="constant-rules-missing", detail=f"cuts {sorted(seen_cuts)} lack 0 or n")
     return None
+
+
+class GetScoresLabelsCounts(Contract):
+    """callee of _calculate_tradeoff_points: wiring against the assumed pandas contracts (sort_values(by, ascending=False) sorts the rows by
+    non-increasing score and keeps row content; list(column) is the column in row order): scores and labels are the two columns of the SAME
+    sorted frame, the counts are those of these labels, results are returned in the order (scores, labels, n, n_positive, n_negative)."""
+    source, function = TC, "_get_scores_labels_and_counts"
+
+    def params(self, eng, st):
+        self.data = Abstract("data")
+        st.env["data"] = self.data
+
+    def on_call(self, eng, st, node, name, recv, args, kwargs):
+        if name == "sort_values" and recv is self.data:
+            ok = kwargs.get("by") == "score" and kwargs.get("ascending") is False and not args
+            eng.oblige(st, "rows_sorted_by_decreasing_score", BoolVal(bool(ok)), "wiring", node)
+            return Abstract("sorted_frame")
+        if name == "list" and args and isinstance(args[0], Abstract) and args[0].tag == "sorted_col":
+            return Abstract("listed", col=args[0].col)
+        if name == "_get_counts":
+            a = args[0] if args else None
+            eng.oblige(st, "counts_of_the_sorted_labels", BoolVal(isinstance(a, Abstract) and a.tag == "listed" and a.col == "label"), "wiring", node)
+            return (Abstract("count", which="n"), Abstract("count", which="pos"), Abstract("count", which="neg"))
+        return NotImplemented
+
+    def on_subscript(self, eng, st, node, base, index):
+        if isinstance(base, Abstract) and base.tag == "sorted_frame" and isinstance(index, str):
+            return Abstract("sorted_col", col=index)
+        if base is self.data and isinstance(index, str):
+            return Abstract("sorted_col", col="UNSORTED:" + index)
+        return NotImplemented
+
+    def post(self, eng, st, status, value):
+        ok = status == "return" and isinstance(value, tuple) and len(value) == 5
+        if not ok:
+            return [("returns_five_values", BoolVal(False))]
+        s, l, n_, p, q = value
+        col = lambda v, c: isinstance(v, Abstract) and v.tag == "listed" and v.col == c
+        cnt = lambda v, w: isinstance(v, Abstract) and v.tag == "count" and v.which == w
+        return [("scores_and_labels_are_columns_of_the_same_sorted_frame", BoolVal(col(s, "score") and col(l, "label"))),
+                ("counts_returned_as_n_positive_negative", BoolVal(cnt(n_, "n") and cnt(p, "pos") and cnt(q, "neg")))]
+
+
+class GetCounts(Contract):
+    """_get_counts(labels): n = len, n_positive = sum(labels), n_negative = n - n_positive (labels in {0,1}: sum = number of positives)."""
+    source, function = TC, "_get_counts"
+
+    def params(self, eng, st):
+        self.n, self.s = Int("len_labels"), Int("sum_labels")
+        st.env["labels"] = Abstract("labels")
+
+    def on_call(self, eng, st, node, name, recv, args, kwargs):
+        if name == "len" and isinstance(args[0], Abstract):
+            return self.n
+        if name == "sum" and isinstance(args[0], Abstract):
+            return self.s
+        return NotImplemented
+
+    def post(self, eng, st, status, value):
+        ok = status == "return" and isinstance(value, tuple) and len(value) == 3 and all(is_z3(v) for v in value)
+        if not ok:
+            return [("returns_three_counts", BoolVal(False))]
+        return [("n_is_the_length", value[0] == self.n), ("positives_are_the_label_sum", value[1] == self.s), ("negatives_are_the_rest", value[2] == self.n - self.s)]
